@@ -211,7 +211,7 @@ def value_paths(t, path=(), sel="", depth=0):
     for i, (n, e, tg, ft) in enumerate(fields(t)):
         s = sel + "." + n
         out.append((path + (i,), s, ft))
-        if kind(ft) == "struct" and depth < 6:
+        if kind(ft) == "struct" and depth < 16:
             out += value_paths(ft, path + (i,), s, depth + 1)
     return out
 
@@ -396,7 +396,10 @@ def make_shapes(rng, n, first_sid=0, ptr_embed=True, corners=True):
     while len(shapes) < n:
         sid = len(shapes) + first_sid
         g = ShapeGen(rng, sid, ptr_embed=ptr_embed)
-        shapes.append(Shape(sid, g.type, g.decls))
+        sh = Shape(sid, g.type, g.decls)
+        if len(sh.listing) > 64 or len(sh.paths) > 120:
+            continue    # re-used inner types can multiply; keep the listing bounded
+        shapes.append(sh)
     return shapes
 
 
@@ -563,7 +566,7 @@ def emit_lens_tuples(em, sh, rng, chunk, per_arity=1):
     rng.shuffle(pending_t)
     for n in order:
         for fam in ("P", "S"):
-            for mode in (("name", "type") if per_arity >= 2 else (("name",) if (n + (fam == "S")) % 2 else ("type",))):
+            for mode in (("name", "type") if per_arity >= 2 else (("name",) if (n + (fam == "S") + sh.sid) % 2 else ("type",))):
                 cands, pending = (by_name, pending_n) if mode == "name" else (by_type, pending_t)
                 if not cands:
                     cands, pending, mode = (by_type, pending_t, "type") if mode == "name" else (by_name, pending_n, "name")
